@@ -291,7 +291,27 @@ def run(F, R, tier):
         nb = norm(arms["Closure"]["body"])
         cs = [c for c in H.walk(nb) if c.get("k") == "mcall" and H.last(c.get("callee") or "") == "push_closure"]
         a = [D.canon_text(x) for x in cs[0]["args"]] if len(cs) == 1 else []
-        ok = len(a) >= 2 and "(ip + 1)" in a[0] and "(ip + 3)" in a[1] and "(ip + 1)" not in a[1]
+
+        def offsets(x):
+            """constant offsets k of the reads `code[ip + k]` / `code[ip + k ..]` in x (sums folded)"""
+            from .lib.vmarms import _ip_plus
+            out = set()
+            for y in H.walk(x):
+                if y.get("k") == "index":
+                    i = H.strip(y["i"])
+                    if i.get("k") == "struct" and i.get("fields"):
+                        for fd in i["fields"]:
+                            if fd["name"] == "start":
+                                k_ = _ip_plus(fd["e"])
+                                if k_ is not None:
+                                    out.add(k_)
+                    else:
+                        k_ = _ip_plus(i)
+                        if k_ is not None:
+                            out.add(k_)
+            return out
+        o0, o1 = (offsets(cs[0]["args"][0]), offsets(cs[0]["args"][1])) if len(cs) == 1 and len(cs[0]["args"]) >= 2 else (set(), set())
+        ok = len(a) >= 2 and 1 in o0 and o0 <= {1, 2} and o1 == {3}
         R.ob("closure-plumbing", "VM Closure arm passes (const_idx, num_free) — the u16 at ip+1 and the byte at ip+3 — to push_closure", ok, str(a)[:200],
              "src/vm/interpreter.rs:%s" % arms["Closure"]["line"])
     pc = F.fn("vm::interpreter::VM::push_closure")
